@@ -100,6 +100,28 @@ def run(ctx: Ctx):
         if force and (force, "truthy", None, False) not in facts:
             ctx.fail(cons + "#force", g.loc(d), "a forced stop still performs the DPR exchange")
         extra = [x for x in facts if x[0] not in (f"{cv}.state", force, "self._started", "self._stopping")]
+        # argument validation is no condition of the shutdown: a test that reads nothing but the
+        # call's own arguments, and whose other side raises before anything has been changed
+        # (`if not 0 < poll_interval <= 1: raise ValueError`), refuses the call as a whole
+        import re as _re
+        params_ = {a.arg for a in f.node.args.args + f.node.args.kwonlyargs} - {"self"}
+
+        def _validation(x):
+            names = set(_re.findall(r"[A-Za-z_][A-Za-z_0-9.]*", str(x[0]) + " " + (str(x[2]) if isinstance(x[2], str) else "")))
+            names = {n_ for n_ in names if not n_.replace(".", "").isdigit() and n_ not in ("not", "and", "or", "in", "is", "None", "True", "False")}
+            if not names or not all(n_.split(".")[0] in params_ for n_ in names):
+                return False
+            for t in ast.walk(f.node):
+                if isinstance(t, ast.If) and t.body and isinstance(t.body[-1], ast.Raise) and not t.orelse \
+                        and {y.id for y in ast.walk(t.test) if isinstance(y, ast.Name)} <= params_ \
+                        and {y.id for y in ast.walk(t.test) if isinstance(y, ast.Name)}:
+                    stores_before = any(isinstance(s_, (ast.Assign, ast.AugAssign)) and any(
+                        A.dotted(tt).startswith("self.") for tt in A.store_targets(s_))
+                        for s_ in f.node.body[:f.node.body.index(t)] if t in f.node.body)
+                    if t in f.node.body and not stores_before:
+                        return True
+            return False
+        extra = [x for x in extra if not _validation(x)]
         if extra:
             ctx.fail(cons + "#extra", g.loc(d), f"the DPR is only sent under {extra}")
         loops = [n for n in g.nodes if n.kind == "iter" and any(x is d for l, x in n.succ if l == "iter")
@@ -127,7 +149,7 @@ def run(ctx: Ctx):
                         or any(f_[0] == f"{cv_}.state" and f_[1] == "in" and f_[3] is False
                                and set(f_[2] if isinstance(f_[2], (set, frozenset, tuple, list)) else ()) >= set(READY) for f_ in fx):
                     closes_u.append((n, [x for x in fx if x[0] not in (f"{cv_}.state", force, "self._started",
-                                                                       "self._stopping")]))
+                                                                       "self._stopping") and not _validation(x)]))
     if closes_u and all(extra_ for _, extra_ in closes_u):
         n_, extra_ = closes_u[0]
         ctx.fail(cons_u + "#extra", g.loc(n_), f"the connections that have not completed their "
@@ -630,7 +652,8 @@ def run(ctx: Ctx):
                  "connection or closed it: a refused connection's two worker threads keep running "
                  "(also after Node.stop()), one pair per refused attempt")
     sclose = [n for n in ga.nodes if n.kind == "stmt" and any(A.call_name(c) == f"{sparam}.close" for c in n.calls())]
-    r = ga.reach([ga.entry], normal_blocked=regs + sclose)
+    # (a close() that fails has been attempted: its exceptional edge counts as closed)
+    r = ga.reach([ga.entry], normal_blocked=regs, blocked=sclose)
     if ga.exit in r:
         ctx.fail(cons + "#socket", add.loc(), "a refused connection's socket is not closed")
     for fn in nc.all_funcs:
